@@ -15,7 +15,7 @@ T = 64
 
 
 def key_pool():
-    keys = [0, 1, -1, 7, 2**31, 2**53, 2**53 + 1, 2**63 - 1, -2**63, 2**63, -2**63 - 1, 2**70, 10**15, 500000000000000,
+    keys = [0, 1, -1, 7, 2**31, 2**53, 2**53 + 1, 2**63 - 1, -2**63, 2**63, -2**63 - 1, 2**70, 10**15,
             0.0, -0.0, 1.0, 1.5, -2.5, 1e300, 5e-324, float('inf'), float('-inf'), float(2**53), float(2**63),
             '', 'a', 'b', 'key', 'a\x00b', 'é', '\U0001F600', 'a-500000000000000', 'x' * 100,
             b'', b'a', b'key', b'\x00\xff', b'\x80\x05N.', b'x' * 100,
@@ -38,7 +38,7 @@ def values():
             ('str_file', 's' * big), ('str_file_crlf', 'a\r\nb\rc\n' * 20), ('str_file_astral', '\U0001F600é' * 50),
             ('bytes', b'bin'), ('bytes_file', b'B' * big), ('bytes_file_crlf', b'a\r\nb' * 30),
             ('tuple', (1, 'a', None)), ('list_file', ['L' * big, 2.5]), ('dict', {'a': 1, 'b': (2, 3)}),
-            ('set', frozenset([1, 'x'])), ('empty_str', ''), ('empty_bytes', b'')]
+            ('set', frozenset([1, 2])), ('empty_str', ''), ('empty_bytes', b'')]
 
 
 def main():
@@ -76,12 +76,14 @@ def main():
             tag = ['t', None, 3, 2.5, b'g'][i % 5]
             c.set(k, v, tag=tag)
             content.append((k, v, tag))
-        c.push('q-inline', prefix='q')
-        c.push('Q' * (T + 5), prefix='q')
-        c.push(b'intq')
-        content.append(('q-500000000000000', 'q-inline', None))
-        content.append(('q-500000000000001', 'Q' * (T + 5), None))
-        content.append((500000000000000 + 0, b'intq', None))
+        k1 = c.push('q-inline', prefix='q')
+        k2 = c.push('Q' * (T + 5), prefix='q')
+        k3 = c.push(b'intq')
+        assert (k1, k2) == ('q-500000000000000', 'q-500000000000001'), (k1, k2)
+        content.append((k1, 'q-inline', None))
+        content.append((k2, 'Q' * (T + 5), None))
+        content.append((k3, b'intq', None))
+        manifest['cache_int_queue_key'] = k3
         manifest['cache'] = {'content': content, 'settings': {'disk_min_file_size': T, 'statistics': 1, 'tag_index': 1,
                                                               'eviction_policy': 'least-recently-used', 'cull_limit': 5,
                                                               'size_limit': 2**28, 'disk_pickle_protocol': 5}}
